@@ -125,6 +125,18 @@ def run(ctx):
                 "list = enum { a; }", "namespace a { i32 = record { } }\nr = record { f: a.i32; g: i32; }", "a.b = enum { k; }"]:
         todo.append({"files": {"/w/m.djinni": dup}, "root": "/w/m.djinni", "meta": ("dup", dup)})
     todo.append({"files": {"/w/m.djinni": '@import "lib.djinni"\nx = enum { a; }', "/w/lib.djinni": "x = record { }"}, "root": "/w/m.djinni", "meta": ("dup", "import")})
+    # external types (@extern): they bind like declarations, and a name that is already taken is a duplicate
+    ext = lambda name, ns=(), prim="record": {"ext": [{"name": name, "ns": list(ns), "prim": prim}]}
+    for name, files in {
+        "extern-binds": {"/w/m.djinni": '@extern "e.yaml"\nr = record { f: a.b.x; g: list<a.b.x>; }', "/w/e.yaml": ext("x", ("a", "b"))},
+        "extern-after-import-dup": {"/w/m.djinni": '@import "lib.djinni"\n@extern "e.yaml"\nr = record { f: x; }', "/w/lib.djinni": "x = record { }", "/w/e.yaml": ext("x")},
+        "extern-builtin-dup": {"/w/m.djinni": '@extern "e.yaml"\nr = record { f: i32; }', "/w/e.yaml": ext("i32")},
+        "extern-twice-dup": {"/w/m.djinni": '@extern "e.yaml"\n@extern "f.yaml"\nr = record { f: x; }', "/w/e.yaml": ext("x", (), "enum"), "/w/f.yaml": ext("x", (), "record")},
+        "extern-two-docs-dup": {"/w/m.djinni": '@extern "e.yaml"\nr = record { f: n.x; }', "/w/e.yaml": {"ext": [{"name": "x", "ns": ["n"], "prim": "enum"}, {"name": "x", "ns": ["n"], "prim": "record"}]}},
+        "extern-then-decl-dup": {"/w/m.djinni": '@extern "e.yaml"\nx = enum { k; }', "/w/e.yaml": ext("x")},
+        "extern-shadowing": {"/w/m.djinni": '@extern "e.yaml"\nnamespace a { x = enum { k; } h = record { f: x; g: .x; } }', "/w/e.yaml": ext("x")},
+    }.items():
+        todo.append({"files": files, "root": "/w/m.djinni", "meta": ("extern", name)})
     # random larger programs
     for i in range(ctx.n(800, 8000)):
         rr = random.Random(f"{ctx.seed}/c04/r{i}")
